@@ -76,6 +76,10 @@ def _run_num(ctx, spec, rng):
             x0 = gen.narrow_ints(rng, (big, big), gen.NARROW[int(rng.integers(0, len(gen.NARROW)))])
         else:
             x0 = gen.unique_ids((big, big), kind)
+        if x0.dtype.kind in "fc" and rng.random() < 0.3:
+            x0 = x0 * x0.dtype.type(10.0 ** float(rng.choice([-16, -8, 8])))  # very small / large operators: the contraction is linear
+        elif x0.dtype.kind == "c" and rng.random() < 0.2:
+            x0 = x0.real + 1e-15j * x0.imag  # O(1) real parts with imaginary parts at rounding level: still a complex operator
         x = gen.layout(x0, ["C", "F", "ro", "strided"][int(rng.integers(0, 4))])
         sysarg = s[0] if len(s) == 1 and rng.random() < 0.5 else list(s)
         dimarg = list(d) if rng.random() < 0.7 else np.array(d)
